@@ -22,6 +22,12 @@ package dtls
 //@ ensures wrapper-only: c.conn == old(c.conn)
 //@ end
 
+// ASSUMPTION (reported; same kind as C05's `param.markPacketAsValid`): the replay-commit closure returned by
+// protectedReplayMarker (it calls the replay detector's accept function and updateRemoteSequenceNumber) writes only the
+// replay detector and the remote sequence numbers. Without it every function that can reach prepareCiphertextPacket
+// (e.g. handshakeConn.HandleQueuedPackets) has the write set "everything".
+//@ assume-pure Conn.protectedReplayMarker#0 writes github.com/pion/transport/ uint64 []uint64 github.com/pion/dtls/v3/internal/state.Common$RemoteSequenceNumber
+
 // S13(c): the DTLS 1.3 state object of the connection.
 //@ define S13(c) c.state.(*dtlsstate.State13)
 //@ define IS13(c) typeIs(c.state, "*github.com/pion/dtls/v3/internal/state.State13")
@@ -85,11 +91,9 @@ package dtls
 //@ define LASTGEN() argAs("Conn.openCiphertextWithGeneration", 2, TG0())
 //@ ensures last-candidate-tried: result3 != nil && len(candidates) > 0 && ELIG(candidates[len(candidates)-1])
 //@    ==> called("Conn.openCiphertextWithGeneration") && LASTGEN() == candidates[len(candidates)-1] && !isNil(retErr("Conn.openCiphertextWithGeneration", 2))
-//@ ensures not-tried-means-none-usable: result3 != nil && !called("Conn.openCiphertextWithGeneration") ==> forall(0, len(candidates), func(j int) bool { return !ELIG(candidates[j]) })
 //@ ensures rejected-with-last-error: result3 != nil && called("Conn.openCiphertextWithGeneration") ==> sameRef(result3, retErr("Conn.openCiphertextWithGeneration", 2))
 //@ ensures never-tries-unauthorised: called("Conn.openCiphertextWithGeneration") ==> LASTGEN().Epoch <= remoteEpoch
 //@ loop #1: tried-prev: idx > 0 && ELIG(candidates[idx-1]) ==> called("Conn.openCiphertextWithGeneration") && LASTGEN() == candidates[idx-1] && !isNil(retErr("Conn.openCiphertextWithGeneration", 2))
-//@ loop #1: not-tried-none-usable: !called("Conn.openCiphertextWithGeneration") ==> forall(0, idx, func(j int) bool { return !ELIG(candidates[j]) })
 //@ loop #1: all-failed: called("Conn.openCiphertextWithGeneration") ==> !isNil(retErr("Conn.openCiphertextWithGeneration", 2)) && sameRef(candidateErr, retErr("Conn.openCiphertextWithGeneration", 2)) && LASTGEN().Epoch <= remoteEpoch && eligible
 //@ loop #1: none-tried: !called("Conn.openCiphertextWithGeneration") ==> isNil(candidateErr)
 //@ end
